@@ -81,6 +81,7 @@ type LoopSpec struct {
 	Modifies  []Expr
 	Unfolds   []Expr
 	Havoc     []string // extra cells to havoc (normally computed)
+	Unroll    int      // >0: execute the loop concretely up to N iterations with an unwinding assertion
 }
 
 type ParamSpec struct { // contract of an opaque function-valued parameter
@@ -462,7 +463,7 @@ var clauseKW = map[string]bool{
 	"spec": true, "func": true, "lemma": true, "guarded": true,
 	"requires": true, "ensures": true, "modifies": true, "ghost": true, "loop": true,
 	"invariant": true, "decreases": true, "unfold": true, "inline": true, "trusted": true,
-	"pure": true, "atomic": true, "param": true, "induction": true, "havoc": true, "nopanic": true,
+	"pure": true, "atomic": true, "param": true, "induction": true, "havoc": true, "nopanic": true, "unroll": true,
 }
 
 type rawClause struct {
@@ -637,6 +638,15 @@ func ParseContractFile(path string, src []byte, ps *PkgSpec) error {
 			for _, f := range strings.Split(rc.text, ",") {
 				curLoop.Havoc = append(curLoop.Havoc, strings.TrimSpace(f))
 			}
+		case "unroll":
+			if curLoop == nil {
+				return fmt.Errorf("%s:%d: unroll outside loop", path, rc.line)
+			}
+			n, err := strconv.Atoi(strings.TrimSpace(rc.text))
+			if err != nil || n <= 0 {
+				return fmt.Errorf("%s:%d: unroll N", path, rc.line)
+			}
+			curLoop.Unroll = n
 		case "decreases":
 			e, err := ParseExpr(rc.text)
 			if err != nil {
